@@ -473,10 +473,10 @@ theorem skip_after (i e : Nat) (head : Bool) (w : W) : Skip (acceptEvent i e hea
   simp only [hpo, heo]
   -- after the serial step
   have h1 : ∃ ev1, (if ev.serial.isNone then
-        { setEv w e (fun x => { x with serial := some (newSerial w.gserial) }) with gserial := newSerial w.gserial }
+        { setEv w e (fun x => { x with serial := some (evSerial w p) }) with gserial := evSerial w p }
       else w).events[e]? = some ev1 ∧ ev1.serial.isSome = true ∧ ev1.poolSerials = ev.poolSerials := by
     split
-    · refine ⟨{ ev with serial := some (newSerial w.gserial) }, ?_, rfl, rfl⟩
+    · refine ⟨{ ev with serial := some (evSerial w p) }, ?_, rfl, rfl⟩
       show (setEv w e _).events[e]? = _
       rw [getElem?_setEv]; simp [heo]
     · rename_i hn
@@ -813,20 +813,27 @@ theorem acceptEvent_head_spec (pi e : Nat) (w : W) (q : PoolSt) (ev : Ev) (hq : 
   simp only [hq, hev]
   split
   · -- a pool serial is assigned first
-    obtain ⟨q', a1, a2, a3, a4⟩ := key
-      (setPool (setEv (if ev.serial.isNone then
-          { setEv w e (fun x => { x with serial := some (newSerial w.gserial) }) with gserial := newSerial w.gserial }
-        else w) e (fun x => { x with poolSerials := x.poolSerials ++ [(q.name, newSerial q.serial)] })) pi
-        (fun p => { p with serial := newSerial p.serial }))
-      { q with serial := newSerial q.serial }
-      (by rw [getElem?_setPool]; simp only [if_true, setEv_pools]; split <;> simp [hq]) rfl rfl
-    refine ⟨q', a1, a2, a3, ?_⟩
-    rw [a4]; split <;> rfl
+    have key2 : ∀ (w1 : W), w1.pools[pi]? = some q → w1.outs = w.outs →
+        ∃ q', (insertEv pi e true (setPool (setEv w1 e
+            (fun x => { x with poolSerials := x.poolSerials ++ [(q.name, poolSerial w1 q)] })) pi
+            (fun p => { p with serial := poolSerial w1 p }))).pools[pi]? = some q' ∧ q'.buffer = e :: q.buffer ∧
+          q'.bufSize = q.bufSize ∧
+          (insertEv pi e true (setPool (setEv w1 e
+            (fun x => { x with poolSerials := x.poolSerials ++ [(q.name, poolSerial w1 q)] })) pi
+            (fun p => { p with serial := poolSerial w1 p }))).outs = w.outs := by
+      intro w1 h1 h2
+      obtain ⟨q', a1, a2, a3, a4⟩ := key
+        (setPool (setEv w1 e (fun x => { x with poolSerials := x.poolSerials ++ [(q.name, poolSerial w1 q)] })) pi
+          (fun p => { p with serial := poolSerial w1 p }))
+        { q with serial := poolSerial w1 q }
+        (by rw [getElem?_setPool]; simp [h1]) rfl rfl
+      exact ⟨q', a1, a2, a3, by rw [a4]; exact h2⟩
+    exact key2 _ (by split <;> simpa using hq) (by split <;> rfl)
   · split
     · rename_i hg3; simp [accept_g3] at hg3
     · obtain ⟨q', a1, a2, a3, a4⟩ := key
         (if ev.serial.isNone then
-          { setEv w e (fun x => { x with serial := some (newSerial w.gserial) }) with gserial := newSerial w.gserial }
+          { setEv w e (fun x => { x with serial := some (evSerial w q) }) with gserial := evSerial w q }
         else w) q (by split <;> simpa using hq) rfl rfl
       refine ⟨q', a1, a2, a3, ?_⟩
       rw [a4]; split <;> rfl
@@ -917,8 +924,8 @@ theorem insertEv_fixed (i e : Nat) (head : Bool) (w : W) (j : Nat) :
     | some p => rw [(insertEv_spec j e head w p hp).1]; simp [insBuf_fixed]
   · rw [insertEv_other i e head w j hj]
 
-theorem setSerial_fixed (w : W) (i j : Nat) :
-    (setPool w i (fun p => { p with serial := newSerial p.serial })).pools[j]?.map fixedPart = w.pools[j]?.map fixedPart := by
+theorem setSerial_fixed (w : W) (i j : Nat) (g : PoolSt → Int) :
+    (setPool w i (fun p => { p with serial := g p })).pools[j]?.map fixedPart = w.pools[j]?.map fixedPart := by
   rw [getElem?_setPool]
   split
   · cases w.pools[j]? <;> simp [fixedPart]
